@@ -24,7 +24,7 @@ from ._misc import drive, replay_with, LoopRun, where
 
 MODULE = 'bounded.c19'
 PREFIX = '/obj/file'
-MARKERS = ('all', 'last-only', 'early-final', 'not-on-final')
+MARKERS = ('all', 'last-only', 'early-final')   # 'not-on-final' removed: the statement does not say what happens when the final segment does not carry the marker (false alarm, DESIGN.md 7b)
 
 
 def _content(i):
